@@ -133,6 +133,8 @@ def long_job(types, emb, max_n=("10000", "1000000")):
 
 TR_LEN = {"module": "Trace_Len", "cfg": "Trace_Len.cfg", "family": "len", "args": {"n": ("500", "5000")}, "timeout": 1800}
 
+GEN_INGEST = {"module": "Gen_Ingest", "cfg": "Gen_Ingest.cfg", "overrides": {"MaxLen": ("4", "5"), "MaxSteps": ("4", "5")}, "family": "ingest"}
+
 PROPS = {
     "C01": {
         "level_text": "Moments.tla model-checked (TLC, exact rationals): Welford's update equals the textbook mean/variance for every sequence within bounds and is order-free; every TLC-generated sequence replayed on Mean/Variance under six exact embeddings, envelope comparison; long streams (<= 10^6) against the specification's definitions evaluated in i128; Apalache inductive invariant for the order-2 update over unbounded integers (thorough)",
@@ -256,7 +258,7 @@ PROPS = {
         "technique": 'TLC model checking of Weighted.tla + replay of every generated history',
         "title": "weighted mean and its error equal the exact weighted statistics",
         "mc": [MC_W, MC_W1, MC_WW],
-        "replay": [gen_pair("Weighted", "seq", WE, maxlen=("4", "5")),
+        "replay": [GEN_INGEST, gen_pair("Weighted", "seq", WE, maxlen=("4", "5")),
                    gen_pair("Weighted", "tree", "E0:W0,E3:W1,E5:W2", maxlen=("3", "4")),
                    gen_pair("Weighted", "hist", "E0:W0,E5:W2", depth=("3", "4")),
                    gen_pair("Weighted", "seq", "E0:W0,E3:W1", maxlen=("5", "6"), wide=True),
@@ -274,7 +276,7 @@ PROPS = {
         "technique": 'TLC model checking of Covariance.tla + replay incl. swapped twin; Apalache inductive invariant',
         "title": "covariance reports exact means, variances, covariance and Pearson correlation",
         "mc": [MC_C, MC_C1],
-        "replay": [gen_pair("Covariance", "seq", CE, maxlen=("4", "5")),
+        "replay": [GEN_INGEST, gen_pair("Covariance", "seq", CE, maxlen=("4", "5")),
                    gen_pair("Covariance", "tree", "E0:E0,E3:E5,E5:E3", maxlen=("3", "4")),
                    gen_pair("Covariance", "hist", "E0:E0,E3:E5", depth=("3", "4"))],
         "apalache": [{"module": "Ind_Covariance", "skip": (True, False)}],
